@@ -48,6 +48,15 @@ pub struct Actor {
     pub go: bool,
     pub worker: usize,
     pub steps: usize,
+    /// not spawned by the driver: enrols itself when the code under test starts it
+    pub external: bool,
+    /// a coroutine this actor has resumed *on its own stack* (cqueue bottom halves): while it runs,
+    /// the actor's progress is that coroutine's progress
+    pub hosting: Option<usize>,
+    /// a *kernel actor*: the kernel side (EventSource::subscribe, running on some worker after the
+    /// stack switch) of coroutine actor `kernel_of`; active between co.switched and co.subscribed
+    pub kernel_of: Option<usize>,
+    pub kactive: usize,
 }
 
 #[derive(Clone, Debug)]
@@ -90,6 +99,11 @@ pub struct Inner {
     pub park_add_gen: u64,
     // which primitive owns a blocker (learnt at the primitive's `*.push` / `*.reg` point)
     pub owner: HashMap<usize, &'static str>,
+    /// set by a scenario that has seen something after which continuing would be unsafe
+    pub abort: bool,
+    /// execution number: a thread that is still waking up from the previous execution must not be
+    /// caught by the next one
+    pub epoch: u64,
 }
 
 pub struct Ctrl {
@@ -149,6 +163,8 @@ impl Ctrl {
                 done_add_gen: 0,
                 park_add_gen: 0,
                 owner: HashMap::new(),
+                abort: false,
+                epoch: 0,
             }),
             cv: Condvar::new(),
             gate: AtomicBool::new(false),
@@ -165,14 +181,14 @@ impl Ctrl {
     }
 
     /// start a fresh execution: forget actors, enable categories
-    pub fn begin(&self, cats: &[&'static str], actors: &[(&str, bool)], use_vclock: bool) {
+    pub fn begin(&self, cats: &[&'static str], actors: &[(&str, bool, bool)], use_vclock: bool) {
         let mut g = self.lock();
         g.gating = true;
         self.gate.store(true, Ordering::SeqCst);
         g.cats = cats.to_vec();
         g.actors = actors
             .iter()
-            .map(|(n, is_co)| Actor {
+            .map(|(n, is_co, external)| Actor {
                 name: n.to_string(),
                 is_co: *is_co,
                 vid: 0,
@@ -181,6 +197,10 @@ impl Ctrl {
                 go: false,
                 worker: usize::MAX,
                 steps: 0,
+                external: *external,
+                hosting: None,
+                kernel_of: None,
+                kactive: 0,
             })
             .collect();
         g.by_vid.clear();
@@ -188,6 +208,8 @@ impl Ctrl {
         g.vclock = if use_vclock { Some(g.vclock.unwrap_or(1_000_000_000)) } else { None };
         g.fired = 0;
         g.owner.clear();
+        g.abort = false;
+        g.epoch += 1;
         g.timers.clear();
         g.trace.clear();
         g.notes.clear();
@@ -241,7 +263,12 @@ impl Ctrl {
     fn resolve(&self, g: &Inner, site: &'static str, a: usize) -> Option<usize> {
         let cat = cat_of(site);
         if g.kernel_cats.iter().any(|c| *c == cat) {
-            return g.by_vid.get(&a).copied();
+            let co_actor = g.by_vid.get(&a).copied()?;
+            // a dedicated kernel actor, if the scenario declared one
+            if let Some(k) = g.actors.iter().position(|x| x.kernel_of == Some(co_actor)) {
+                return Some(k);
+            }
+            return Some(co_actor);
         }
         let vid = may::verif::cur_vid();
         if vid != 0 {
@@ -261,13 +288,24 @@ impl Ctrl {
 
     fn settled_one(g: &Inner, i: usize) -> bool {
         let a = &g.actors[i];
+        if a.hosting.is_some() {
+            return true;
+        }
+        if a.kernel_of.is_some() {
+            return a.st == ASt::AtPoint || a.kactive == 0;
+        }
         match a.st {
             ASt::AtPoint | ASt::Finished(_) => true,
             ASt::Blocked(addr, timed) => !timed && !g.tp_unparked.get(&addr).copied().unwrap_or(false),
-            ASt::NotStarted => false,
+            ASt::NotStarted => a.external,
             ASt::Running => {
                 if a.is_co && a.vid != 0 {
-                    matches!(g.co.get(&a.vid), Some(CoSt::Suspended))
+                    match g.co.get(&a.vid) {
+                        Some(CoSt::Suspended) => true,
+                        // switched out, its kernel side is an actor of its own
+                        Some(CoSt::Switching(_)) => g.actors.iter().any(|x| x.kernel_of == Some(i)),
+                        _ => false,
+                    }
                 } else {
                     false
                 }
@@ -281,9 +319,17 @@ impl Ctrl {
         let mut g = self.lock();
         loop {
             let n = g.actors.len();
-            let all = (0..n).all(|i| Self::settled_one(&g, i));
+            let mut all = (0..n).all(|i| Self::settled_one(&g, i));
+            // a coroutine the code under test has spawned but that has not started (not enrolled) yet is
+            // on its way to become one of the external actors: wait for it
+            if all && g.actors.iter().any(|a| a.external && a.kernel_of.is_none() && a.st == ASt::NotStarted) {
+                let orphan = g.co.iter().any(|(vid, st)| !g.by_vid.contains_key(vid) && matches!(st, CoSt::Queued | CoSt::Running | CoSt::Switching(_)));
+                if orphan {
+                    all = false;
+                }
+            }
             if all {
-                if g.actors.iter().all(|a| matches!(a.st, ASt::Finished(_))) {
+                if g.actors.iter().all(|a| matches!(a.st, ASt::Finished(_)) || (a.kernel_of.is_some() && a.kactive == 0)) {
                     return Ok(Settled::AllFinished);
                 }
                 if g.actors.iter().any(|a| a.st == ASt::AtPoint) {
@@ -296,7 +342,7 @@ impl Ctrl {
                 let desc: Vec<String> = g
                     .actors
                     .iter()
-                    .map(|a| format!("{}:{:?}:{:?}", a.name, a.st, g.co.get(&a.vid)))
+                    .map(|a| format!("{}:{:?}:{:?}:k{}:h{:?}", a.name, a.st, g.co.get(&a.vid), a.kactive, a.hosting))
                     .collect();
                 return Err(ToolError(format!("watchdog: actors never settled: {desc:?}")));
             }
@@ -317,10 +363,39 @@ impl Ctrl {
             .wait_timeout_while(g, Duration::from_millis(stable_ms), |x| x.change == ch)
             .unwrap_or_else(|p| p.into_inner());
         let n = g.actors.len();
+        let orphan = g.actors.iter().any(|a| a.external && a.kernel_of.is_none() && a.st == ASt::NotStarted)
+            && g.co.iter().any(|(vid, st)| !g.by_vid.contains_key(vid) && matches!(st, CoSt::Queued | CoSt::Running | CoSt::Switching(_)));
         to.timed_out()
             && g.change == ch
+            && !orphan
             && (0..n).all(|i| Self::settled_one(&g, i))
             && !g.actors.iter().any(|a| a.st == ASt::AtPoint)
+    }
+
+    /// declare actor `k` to be the kernel side of coroutine actor `of`
+    pub fn set_kernel_of(&self, k: usize, of: usize) {
+        self.lock().actors[k].kernel_of = Some(of);
+    }
+
+    pub fn kernel_idle(&self, k: usize) -> bool {
+        let g = self.lock();
+        g.actors[k].kernel_of.is_some() && g.actors[k].kactive == 0
+    }
+
+    pub fn kernel_active(&self, k: usize) -> bool {
+        let g = self.lock();
+        g.actors[k].kactive > 0
+    }
+
+    pub fn abort_run(&self) {
+        let mut g = self.lock();
+        g.abort = true;
+        g.change += 1;
+        self.cv.notify_all();
+    }
+
+    pub fn aborted(&self) -> bool {
+        self.lock().abort
     }
 
     pub fn at_points(&self) -> Vec<(usize, PointInfo)> {
@@ -440,8 +515,12 @@ impl may::verif::Controller for Ctrl {
         g.actors[me].worker = may::verif::worker_id();
         g.change += 1;
         self.cv.notify_all();
-        while g.gating && !g.actors.get(me).map_or(true, |x| x.go) {
+        let epoch = g.epoch;
+        while g.epoch == epoch && g.gating && !g.actors.get(me).map_or(true, |x| x.go) {
             g = self.cv.wait(g).unwrap_or_else(|p| p.into_inner());
+        }
+        if g.epoch != epoch {
+            return;
         }
         if let Some(x) = g.actors.get_mut(me) {
             x.go = false;
@@ -455,25 +534,77 @@ impl may::verif::Controller for Ctrl {
     fn note(&self, kind: &'static str, a: usize, b: usize) -> usize {
         let mut g = self.lock();
         let mut ret = 0;
+        // the actor (if any) on whose stack this note is emitted
+        let ctx: Option<usize> = {
+            let vid = may::verif::cur_vid();
+            if vid != 0 {
+                g.by_vid.get(&vid).copied()
+            } else {
+                let t = ACTOR.with(|c| c.get());
+                if t != usize::MAX && t < g.actors.len() && !g.actors[t].is_co && g.actors[t].kernel_of.is_none() { Some(t) } else { None }
+            }
+        };
         match kind {
             "co.sched" => {
                 g.co.insert(a, CoSt::Queued);
             }
             "co.resume" => {
                 g.co.insert(a, CoSt::Running);
+                // resumed from inside an actor (nested on its stack)?
+                let host = {
+                    let vid = may::verif::cur_vid();
+                    if vid != 0 {
+                        g.by_vid.get(&vid).copied()
+                    } else {
+                        let t = ACTOR.with(|c| c.get());
+                        if t != usize::MAX && t < g.actors.len() && !g.actors[t].is_co { Some(t) } else { None }
+                    }
+                };
+                if let Some(h) = host {
+                    if g.gating {
+                        g.actors[h].hosting = Some(a);
+                    }
+                }
             }
             "co.switched" => {
                 g.gen += 1;
                 ret = g.gen;
                 g.co.insert(a, CoSt::Switching(ret));
+                if let Some(ca) = g.by_vid.get(&a).copied() {
+                    if let Some(k) = g.actors.iter().position(|x| x.kernel_of == Some(ca)) {
+                        g.actors[k].kactive += 1;
+                        if g.actors[k].st != ASt::AtPoint {
+                            g.actors[k].st = ASt::Running;
+                        }
+                    }
+                }
             }
             "co.subscribed" => {
                 if g.co.get(&a) == Some(&CoSt::Switching(b)) {
                     g.co.insert(a, CoSt::Suspended);
                 }
+                if let Some(ca) = g.by_vid.get(&a).copied() {
+                    if let Some(k) = g.actors.iter().position(|x| x.kernel_of == Some(ca)) {
+                        g.actors[k].kactive = g.actors[k].kactive.saturating_sub(1);
+                    }
+                }
+                // the kernel side of the nested coroutine's yield ran on the host's stack: now the host goes on
+                // (only if this subscribe ran on the host's own stack: an earlier yield's kernel side may
+                // finish late on another thread)
+                if let Some(h) = ctx {
+                    if g.actors[h].hosting == Some(a) {
+                        g.actors[h].hosting = None;
+                    }
+                }
             }
             "co.done" => {
                 g.co.insert(a, CoSt::Done);
+                for x in g.actors.iter_mut() {
+                    if x.hosting == Some(a) {
+                        x.hosting = None;
+                    }
+                }
+                let _ = ctx;
             }
             "timer.add" => {
                 if g.vclock.is_some() {
@@ -506,6 +637,9 @@ impl may::verif::Controller for Ctrl {
                 g.co.insert(a, CoSt::Queued);
             }
             "tp.wait" => {
+                // emitted under the ThreadPark lock with no token pending: an unpark recorded for this
+                // address belongs to an earlier blocker that lived at the same address
+                g.tp_unparked.insert(a, false);
                 let t = ACTOR.with(|c| c.get());
                 if t != usize::MAX && t < g.actors.len() && !g.actors[t].is_co && g.gating {
                     if g.actors[t].st == ASt::Running {
